@@ -49,7 +49,9 @@ func solverArgv(kind string) []string {
 	case "z3-new":
 		return []string{"z3-new", "-in", "-smt2"}
 	case "cvc5":
-		return []string{"cvc5", "--incremental", "--produce-models", "--lang=smt2"}
+		return []string{"cvc5", "--produce-models", "--lang=smt2"}
+	case "cvc5-int":
+		return []string{"cvc5", "--produce-models", "--lang=smt2", "--solve-bv-as-int=sum"}
 	}
 	panic("unknown solver " + kind)
 }
@@ -83,11 +85,6 @@ func (s *Solver) start() error {
 		f, _ := os.OpenFile(fmt.Sprintf("%s.%s.%d", p, s.Kind, s.cmd.Process.Pid), os.O_CREATE|os.O_WRONLY|os.O_TRUNC, 0o644)
 		s.Log = f
 	}
-	pre := "(set-option :produce-models true)\n"
-	if s.Kind == "cvc5" {
-		pre += "(set-logic ALL)\n"
-	}
-	io.WriteString(s.in, pre)
 	return nil
 }
 
@@ -183,8 +180,10 @@ func (s *Solver) CheckText(body string, want []*Term, wantRefs []string) (SatRes
 	}()
 	atomic.AddInt64(&s.Stats.Queries, 1)
 	var sb strings.Builder
-	sb.WriteString("(push 1)\n")
-	if s.Kind != "cvc5" {
+	sb.WriteString("(set-option :produce-models true)\n")
+	if strings.HasPrefix(s.Kind, "cvc5") {
+		fmt.Fprintf(&sb, "(set-option :tlimit-per %d)\n(set-logic ALL)\n", s.Timeout.Milliseconds())
+	} else {
 		fmt.Fprintf(&sb, "(set-option :timeout %d)\n", s.Timeout.Milliseconds())
 	}
 	sb.WriteString(body)
@@ -238,7 +237,7 @@ func (s *Solver) CheckText(body string, want []*Term, wantRefs []string) (SatRes
 			model[w.ID] = vals[i]
 		}
 	}
-	io.WriteString(s.in, "(pop 1)\n")
+	io.WriteString(s.in, "(reset)\n")
 	switch res {
 	case Sat:
 		atomic.AddInt64(&s.Stats.SatN, 1)
